@@ -1,19 +1,27 @@
 (* Property C28 — "Loggers write every accepted line exactly once, in order".
-   Only theorem statements: each is closed by [exact] of a lemma proved in C28/LoggerQProofs.v
-   and followed by Print Assumptions.
+   Only theorem statements: each is closed by [exact] of a lemma proved in C28/LoggerQProofs.v,
+   C28/OracleLink.v or C28/OrigWitness.v and followed by Print Assumptions.
 
-   Vocabulary.  [run sched (init m ps)]: the interleaving model of C28/LoggerQ.v started with
-   level mask m and one program (list of (level, text) submit calls) per producer thread,
-   executed under the schedule [sched] (a list of thread ids: P i, Cons = the logger's own
-   thread, Stop = the thread calling stop()); every statement below is for ALL schedules, any
-   number of producers and any programs.  [wrote c] = the queue elements written so far, in
-   file order (ghost; the file holds their texts: first clause of c28_order); [q_src x] = the
-   submit call (producer, call number) an element stems from; [elems m i 0 p] = the elements
-   producer i creates for the calls of p at enabled levels, in call order; [from i] selects the
-   elements of producer i.  The multi-producer queue is abstracted as an atomic FIFO; that
-   abstraction is licensed by property C30 (coq/C30), not proved here. *)
+   Vocabulary.  [run sched (init m ps)]: the interleaving model of C28/LoggerQ.v (the code after
+   the repairs c53d854 and 4b85524) started with level mask m and one program (list of
+   (level, text) submit calls) per producer thread, executed under the schedule [sched] (a list
+   of thread ids: P i, Cons = the logger's own thread, Stop = the thread calling stop()); every
+   "forall sched" below is for ALL schedules, any number of producers and any programs.  One
+   step of a thread is one atomic action: a whole send (the level test is thread-local, the push
+   is atomic by C30), one try_pop, one load of _stopping, one line written, one of the three
+   statements of stop().
+   Ghost: [pushed c] all queue pushes so far, in order; [wrote c] the queue elements written so
+   far, in file order (the file holds their texts: first clause of c28_order); [q_src x] the
+   submit call (producer, call number) an element stems from (None: stop()'s marker);
+   [elems m i 0 p] the elements producer i creates for the calls of p at enabled levels, in call
+   order; [from i] selects the elements of producer i.
+   "ACCEPTED BEFORE stop()" is made precise by [at_stop c]: the value of [pushed] at the step in
+   which the stopping thread executed _stopping.request_stop() (theorem c28_at_stop).
+   The multi-producer queue is abstracted as an atomic FIFO; that abstraction is licensed by
+   property C30 (coq/C30), not proved here. *)
 From Coq Require Import ZArith List Bool.
 From F8 Require Import C28.Spec_C28 C28.LoggerQ C28.LoggerQProofs C28.OracleLink.
+From F8 Require C28.LoggerQOrig C28.OrigWitness.
 Import ListNotations.
 
 (* Order: what is written of one producer is, in order, an initial part of the lines it
@@ -34,106 +42,143 @@ Theorem c28_levels : forall m ps sched x, In x (wrote (run sched (init m ps))) -
 Proof. exact c28_levels_lemma. Qed.
 Print Assumptions c28_levels.
 
-(* Exactly once, the part that is true: no submit call is written twice (with c28_levels: every
-   written line stems from exactly one submit call).  That every accepted line IS written is
-   false: c28_lost_lines_refuted. *)
-Theorem c28_exactly_once_partial : forall m ps sched,
+(* At most once: no submit call is written twice. *)
+Theorem c28_at_most_once : forall m ps sched,
   NoDup (map q_src (wrote (run sched (init m ps)))).
 Proof. exact c28_once_lemma. Qed.
-Print Assumptions c28_exactly_once_partial.
+Print Assumptions c28_at_most_once.
 
-(* Completeness under the hypothesis that holds when stop() is called after the queue has been
-   drained: if at some moment all producers are done, the queue is empty, the logger thread is
-   alive and stop() has not begun ([quiesced], a boolean), then whenever stop() has returned
-   later, every line submitted at an enabled level is written (in order). *)
-Theorem c28_all_written_partial : forall m ps s1 s2,
-  let c1 := run s1 (init m ps) in
-  quiesced c1 = true ->
-  let c2 := run s2 c1 in
-  stopper c2 = SDone ->
-  forall i p, nth_error ps i = Some p -> filter (from i) (wrote c2) = elems m i 0 p.
-Proof. exact c28_all_written_partial_lemma. Qed.
-Print Assumptions c28_all_written_partial.
-
-(* Without that hypothesis: a line accepted before stop() was called is never written and
-   stop() returns (the logger thread tests _stopping before it looks at the queue). *)
-Theorem c28_lost_lines_refuted :
-  exists m ps sched,
-    let c := run sched (init m ps) in
-    stopper c = SDone /\
-    map rets (prods c) = [[false]] /\
-    pushed c = [{| q_src := Some (O, O); q_text := [65%Z] |}; {| q_src := None; q_text := [] |}] /\
-    file c = [] /\
-    file_complete m ps (observe c) = false.
-Proof. exact c28_lost_lines_refuted_lemma. Qed.
-Print Assumptions c28_lost_lines_refuted.
-
-(* Return values: in every run every completed submit call returned false exactly when its
-   level was enabled, i.e. exactly when the line was accepted (enqueue returns
-   try_push(...) == 0) ... *)
+(* Return values: every completed submit call returned true -- in particular every call whose
+   line was accepted (enabled level) reports success.  (At a disabled level send also returns
+   true: "return is_loggable(lev) ? enqueue(...) : true"; the oracle does not judge that.) *)
 Theorem c28_return_exact : forall m ps sched i p, nth_error ps i = Some p ->
   exists st done, nth_error (prods (run sched (init m ps))) i = Some st /\
-                  p = done ++ todo st /\ rets st = map (fun l => negb (enabled m (fst l))) done.
+                  p = done ++ todo st /\ rets st = map (fun _ => true) done.
 Proof. exact c28_return_exact_lemma. Qed.
 Print Assumptions c28_return_exact.
 
-(* ... so the return-value clause of the property fails even in a run in which everything else
-   is satisfied. *)
-Theorem c28_return_refuted :
-  exists m ps sched,
-    let o := observe (run sched (init m ps)) in
-    file_sound m ps o = true /\ file_complete m ps o = true /\
-    o_rets o = [[false]] /\ rets_ok m ps (o_rets o) = false.
-Proof. exact c28_return_refuted_lemma. Qed.
-Print Assumptions c28_return_refuted.
+(* ... so the oracle's return-value clause holds once the producers have made all their calls. *)
+Theorem c28_return_ok : forall m ps sched,
+  all_done (run sched (init m ps)) = true ->
+  rets_ok m ps (o_rets (observe (run sched (init m ps)))) = true.
+Proof. exact c28_return_ok_lemma. Qed.
+Print Assumptions c28_return_ok.
 
-(* A submitted line with an empty text is taken for the stop marker: the logger thread exits and
-   nothing behind it is written, even if stop() is called only after waiting for the queue. *)
-Theorem c28_empty_line_refuted :
-  exists m ps,
-    let o := run_case true 0 m [] ps in
-    o_stopped o = true /\ o_file o = [(1%nat, [65%Z])] /\ file_complete m ps o = false.
-Proof. exact c28_empty_line_refuted_lemma. Qed.
-Print Assumptions c28_empty_line_refuted.
+(* What "accepted before stop()" means: [at_stop] of any later state is the queue history at
+   the step in which stop() executed request_stop. *)
+Theorem c28_at_stop : forall c1 s2, stopper c1 = SIdle ->
+  at_stop (run s2 (step c1 Stop)) = pushed c1.
+Proof. exact c28_at_stop_lemma. Qed.
+Print Assumptions c28_at_stop.
+
+(* Every line accepted before stop() is written before stop() returns -- for all schedules, with
+   the one exception the repaired loop still has: [win c], the lines pushed between the logger
+   thread's last unsuccessful try_pop and the load of _stopping that follows it (two separate
+   atomic actions: "if (!try_pop(..)) { if (_stopping) break; ..").  Hypothesis [no_marker]: no
+   program submits an empty text at an enabled level (finding C28-empty-line-stops-logger).
+   A consumer that finds the queue empty AFTER the stop request and leaves before the marker is
+   pushed is covered: everything in [at_stop] is then already written. *)
+Theorem c28_all_written : forall m ps, no_marker m ps = true -> forall sched,
+  let c := run sched (init m ps) in
+  stopper c = SDone ->
+  forall x, In x (at_stop c) -> In x (wrote c) \/ In x (win c).
+Proof. exact c28_all_written_lemma. Qed.
+Print Assumptions c28_all_written.
+
+(* The exception is real (so the statement above cannot be strengthened for this code): the
+   logger thread finds the queue empty, a line is accepted, stop() requests the stop, the logger
+   thread loads _stopping = true and leaves; stop() returns, the accepted line is never written.
+   Repair: load _stopping BEFORE try_pop ("const bool s(_stopping); if (!try_pop(..)) { if (s) break; ..").  *)
+Theorem c28_stop_window_refuted :
+  exists m ps sched,
+    let c := run sched (init m ps) in
+    no_marker m ps = true /\ stopper c = SDone /\
+    at_stop c = [{| q_src := Some (O, O); q_text := [65%Z] |}] /\
+    map rets (prods c) = [[true]] /\
+    wrote c = [] /\ win c = [{| q_src := Some (O, O); q_text := [65%Z] |}] /\
+    file_complete m ps (observe c) = false.
+Proof. exact c28_stop_window_refuted_lemma. Qed.
+Print Assumptions c28_stop_window_refuted.
+
+(* stop() called after all producers have made their calls (the situation of the property and
+   of the correspondence runs): every line submitted at an enabled level is in the file, in
+   order, when stop() has returned and no push fell into the window. *)
+Theorem c28_all_written_done : forall m ps s1 s2,
+  no_marker m ps = true ->
+  let c1 := run s1 (init m ps) in
+  stopper c1 = SIdle -> all_done c1 = true ->
+  let c2 := run s2 (step c1 Stop) in
+  stopper c2 = SDone -> win c2 = [] ->
+  forall i p, nth_error ps i = Some p -> filter (from i) (wrote c2) = elems m i 0 p.
+Proof. exact c28_all_written_done_lemma. Qed.
+Print Assumptions c28_all_written_done.
 
 (* The oracle applied to the real log file, on the model: when the texts of the calls at enabled
    levels are pairwise distinct (in the correspondence runs every text carries producer and call
-   number), its soundness half (sequence numbers 1,2,3...; every file line is the next unwritten
-   line of some producer: order, exactly-once, levels) holds after EVERY schedule ... *)
+   number), its soundness half (sequence numbers; every file line is the next unwritten line of
+   some producer: order, at most once, levels) holds after EVERY schedule ... *)
 Theorem c28_oracle_sound : forall m ps sched,
   NoDup (concat (map (must_write m) ps)) ->
   file_sound m ps (observe (run sched (init m ps))) = true.
 Proof. exact c28_oracle_sound_lemma. Qed.
 Print Assumptions c28_oracle_sound.
 
-(* ... and its completeness half (stop() has returned and nothing accepted is missing) holds under
-   the hypothesis of c28_all_written_partial. *)
-Theorem c28_oracle_complete_partial : forall m ps s1 s2,
-  NoDup (concat (map (must_write m) ps)) ->
-  quiesced (run s1 (init m ps)) = true ->
-  stopper (run s2 (run s1 (init m ps))) = SDone ->
-  file_complete m ps (observe (run s2 (run s1 (init m ps)))) = true.
-Proof. exact c28_oracle_complete_partial_lemma. Qed.
-Print Assumptions c28_oracle_complete_partial.
+(* ... and the whole oracle c28_ok (soundness, completeness, return values) holds under the
+   hypotheses of c28_all_written_done. *)
+Theorem c28_oracle_ok : forall m ps s1 s2,
+  NoDup (concat (map (must_write m) ps)) -> no_marker m ps = true ->
+  stopper (run s1 (init m ps)) = SIdle -> all_done (run s1 (init m ps)) = true ->
+  stopper (run s2 (step (run s1 (init m ps)) Stop)) = SDone ->
+  win (run s2 (step (run s1 (init m ps)) Stop)) = [] ->
+  c28_ok m ps (observe (run s2 (step (run s1 (init m ps)) Stop))) = true.
+Proof. exact c28_oracle_ok_lemma. Qed.
+Print Assumptions c28_oracle_ok.
 
-(* Non-vacuity of c28_all_written_partial: two producers, five calls (one at a disabled level),
-   queue drained, then stop(): the hypothesis holds and the four accepted lines are in the file. *)
+(* A submitted line with an empty text is taken for the stop marker: the logger thread exits and
+   nothing behind it is written, even if stop() is called only after waiting for the queue. *)
+Theorem c28_empty_line_refuted :
+  exists m ps,
+    let o := run_case m [] ps in
+    o_stopped o = true /\ o_file o = [(1%nat, [65%Z])] /\ file_complete m ps o = false.
+Proof. exact c28_empty_line_refuted_lemma. Qed.
+Print Assumptions c28_empty_line_refuted.
+
+(* The code BEFORE repair 4b85524 (model C28/LoggerQOrig.v): a line accepted before stop() was
+   called is never written and stop() returns (the loop tested _stopping before it looked at the
+   queue). *)
+Theorem c28_lost_lines_orig_refuted :
+  exists m ps sched,
+    let c := LoggerQOrig.run sched (LoggerQOrig.init m ps) in
+    LoggerQOrig.stopper c = LoggerQOrig.SDone /\
+    map LoggerQOrig.rets (LoggerQOrig.prods c) = [[false]] /\
+    LoggerQOrig.pushed c = [{| LoggerQOrig.q_src := Some (O, O); LoggerQOrig.q_text := [65%Z] |};
+                            {| LoggerQOrig.q_src := None; LoggerQOrig.q_text := [] |}] /\
+    LoggerQOrig.file c = [] /\
+    file_complete m ps (LoggerQOrig.observe c) = false.
+Proof. exact OrigWitness.c28_lost_lines_orig_refuted_lemma. Qed.
+Print Assumptions c28_lost_lines_orig_refuted.
+
+(* The code BEFORE repair c53d854: everything else satisfied, send returned false for an
+   accepted line (enqueue returned try_push(le) == 0). *)
+Theorem c28_return_orig_refuted :
+  exists m ps sched,
+    let o := LoggerQOrig.observe (LoggerQOrig.run sched (LoggerQOrig.init m ps)) in
+    file_sound m ps o = true /\ file_complete m ps o = true /\
+    o_rets o = [[false]] /\ rets_ok m ps (o_rets o) = false.
+Proof. exact OrigWitness.c28_return_orig_refuted_lemma. Qed.
+Print Assumptions c28_return_orig_refuted.
+
+(* Non-vacuity: two producers, five calls (one at a disabled level); stop() is requested while
+   all four accepted lines are still queued and the logger thread has not run: the hypotheses of
+   c28_all_written_done / c28_oracle_ok hold, the four lines are in the file, the oracle accepts. *)
 Theorem c28_nonvacuous :
-  let c1 := run (fst (sched_pushes 18 [1; 0; 1; 0]%nat nv_ps) ++ repeat Cons 15) (init 18 nv_ps) in
-  quiesced c1 = true /\
-  let c2 := run [Stop; Cons; Cons; Cons; Stop; Stop] c1 in
-  stopper c2 = SDone /\
+  no_marker 18 nv_ps = true /\
+  let c1 := run [P 1; P 0; P 1; P 0; P 0] (init 18 nv_ps) in
+  stopper c1 = SIdle /\ all_done c1 = true /\ length (queue c1) = 4%nat /\
+  let c2 := run (Stop :: repeat Cons 12 ++ [Stop; Stop]) (step c1 Stop) in
+  stopper c2 = SDone /\ win c2 = [] /\
   file c2 = [(1%nat, [68%Z]); (2%nat, [65%Z]); (3%nat, [69%Z]); (4%nat, [67%Z])] /\
-  map rets (prods c2) = [[false; true; false]; [false; false]].
+  map rets (prods c2) = [[true; true; true]; [true; true]] /\
+  c28_ok 18 nv_ps (observe c2) = true.
 Proof. exact c28_nonvacuous_lemma. Qed.
 Print Assumptions c28_nonvacuous.
-
-(* What WOULD hold after the two small repairs (not claimed, the code is as it is):
-   (a) enqueue returns try_push(le) (or "!= 0"): then rets = map (enabled m) done, the
-       return-value clause holds and c28_return_refuted disappears;
-   (b) the logger thread leaves its loop only through the empty marker (while (true), or test
-       _stopping only after try_pop found nothing): then the marker pushed by stop() is behind
-       every line accepted before it in the FIFO, so c28_all_written_partial holds without the
-       [quiesced] hypothesis for all lines pushed before stop()'s marker;
-   (c) an empty text submitted by a producer must not be the marker (a separate flag in
-       LogElement): then c28_empty_line_refuted disappears. *)
